@@ -396,7 +396,16 @@ def _unaware(job):
             for at in cl.net.pending_attempts():
                 node = cl.node_at(at.host, at.port)
                 contact.append(("conn", node if node is not None else at.host))
-                at.refuse()
+                # a bootstrap host can be unavailable in three ways: refuses the connection, accepts it and never answers
+                # (the request times out), accepts it and drops it once the request has arrived
+                mode = ctx.choose("bootstrap_fault", 3) if node is None else 0
+                if mode == 0:
+                    at.refuse()
+                else:
+                    tr_ = at.establish()
+                    ctx.log("bootstrap-accepted", at.host, "silent" if mode == 1 else "drops")
+                    if mode == 2:
+                        tr_.drop()
             for tr in cl.net.closing_transports():
                 tr.drop()
             if res:
